@@ -395,6 +395,9 @@ def resize(catalog, ratio=None, psfhelper=None):
 
     # check to see if the input catalog contains psf information
     has_psf = getattr(catalog[0], "psf_a", None) is not None
+    # sources built from a catalogue without psf columns carry psf_a = nan
+    if has_psf:
+        has_psf = bool(np.isfinite(catalog[0].psf_a))
 
     # If ratio is provided we just the psf by this amount
     if ratio is not None:
